@@ -95,7 +95,7 @@ GridSquares(r, h) == IF h = 0 THEN Squares(r) ELSE Squares(r) \ Squares(HoleOf(r
 SqLess(a, b) == a[1] < b[1] \/ (a[1] = b[1] /\ a[2] < b[2])
 
 \* ---- float regions: kinds, placements (a feature of a cell given by face, level, i, j), sizes
-KindSeq == <<"cap", "rect", "regloop", "polyline", "point", "capcompl">>
+KindSeq == <<"cap", "rect", "regloop", "polyline", "point", "capcompl", "fullloop", "emptyloop", "fullpolygon", "emptypolygon", "zeropolygon", "emptycap", "fullcap", "emptyrect", "fullrect">>
 \* feature 0 = centre of the cell, 1 = its vertex 0 (low corner)
 PlaceSet ==
     {<<f, 0, 0, 0, 0>> : f \in 0..5} \cup                     \* face centres: +-x, +-y, poles; face 3 = antimeridian
@@ -125,7 +125,7 @@ Next ==
        \/ Kind = "grid" /\ t' \in {<<"grid", t[2], r, h>> :
                                       r \in {q \in Rects : q[1] < q[2] /\ q[3] < q[4] /\
                                                            (RectNo(q) + t[2]) % GridEvery = GridOff},
-                                      h \in 0..2}
+                                      h \in 0..3}
        \/ Kind = "real" /\ t' \in {<<"real", t[2], p, s>> : p \in RealPlaces \cap (1..Len(PlaceSeq)), s \in RealSizes}
        \/ Kind = "rect" /\ t' \in {<<"rect", t[2], lathi, lnglo, lnghi>> :
                                       lathi \in t[2]..4, lnglo \in -4..4, lnghi \in -4..4}
@@ -198,9 +198,23 @@ EmitDiscrete ==
                                 nmin |-> [m \in 1..5 |-> NMin(S, D, m - 1)]])>>)
     /\ (Kind # "big" /\ SelNo % PredEvery = 0 => PredCases)
 
+\* h = 3: the polyline through the centres of the cells of the bottom row and then of the right
+\* column of the rectangle.  Lines of constant u or v are great circles, so it runs through the
+\* middle of exactly these cells.
+LinePath(r) ==
+    [k \in 1..(r[2] - r[1]) |-> <<r[1] + k - 1, r[3]>>] \o
+    [k \in 1..(r[4] - r[3] - 1) |-> <<r[2] - 1, r[3] + k>>]
+LineVerts(r) ==
+    IF r[2] - r[1] = 1 /\ r[4] - r[3] = 1 THEN << <<r[1], r[3]>> >>
+    ELSE IF r[2] - r[1] = 1 \/ r[4] - r[3] = 1 THEN << <<r[1], r[3]>>, <<r[2] - 1, r[4] - 1>> >>
+    ELSE << <<r[1], r[3]>>, <<r[2] - 1, r[3]>>, <<r[2] - 1, r[4] - 1>> >>
 EmitGrid ==
     LET r == t[3] h == t[4]
-    IN  IF ~HoleOK(r, h) THEN TRUE
+    IN  IF h = 3
+        THEN PrintT(<<"CASE", ToJson([op |-> "gridline", face |-> t[2], g |-> GridG, rect |-> r,
+                                      verts |-> LineVerts(r), cells |-> LinePath(r),
+                                      cfgs |-> RelFor(RectNo(r) + 3)])>>)
+        ELSE IF ~HoleOK(r, h) THEN TRUE
         ELSE PrintT(<<"CASE", ToJson([op |-> "grid", face |-> t[2], g |-> GridG, rect |-> r, hole |-> h,
                                       shell |-> Walk(r[1], r[2], r[3], r[4]),
                                       holewalk |-> IF h = 0 THEN <<>>
